@@ -25,7 +25,10 @@ META = {
     "note": "Trusted: Coq kernel, translator, ExtrOcamlBasic extraction + OCaml driver, C++ harness.  Abstracted: "
             "element values are integers; what a move leaves in its source is a parameter (mva / mvc / smv, all theorems "
             "hold for every choice, including a destructive self-move); strings are std::basic_string over the monotonic "
-            "allocator and only their reuse/metadata behaviour is monitored (SwissString vs std::string differential); "
+            "allocator and only their reuse/metadata behaviour is monitored (SwissString vs std::string differential; string "
+            "element values and assigned std::strings carry embedded NUL bytes, size + bytes compared, on first construction and "
+            "on recycled slots; that the foreign-string assignment passes other.size() is regenerated as foreign_assign_len and "
+            "required by c12_string_assign_exact); "
             "protobuf messages are not modelled, a managed ArenaExample is monitored against a heap message (equal "
             "contents; after every manager.clear(), rebuild included, equal to a fresh message: has-bits, ByteSizeLong, "
             "serialisation, DebugString), managed BOTH through typed create_object<T>() and base-registered "
